@@ -223,7 +223,12 @@ macro_rules! impl_derivatives {
 
             #[inline]
             fn atan2(&self, other: Self) -> Self {
-                let mut res = (self / other.clone()).atan();
+                // atan(y/x) and -atan(x/y) have the same derivatives, use the quotient that is regular on the axes
+                let mut res = if self.re().abs() > other.re().abs() {
+                    -(other.clone() / self).atan()
+                } else {
+                    (self / other.clone()).atan()
+                };
                 res.re = self.re.atan2(other.re);
                 res
             }
